@@ -103,7 +103,7 @@ def hgStep (h : HGState) (toks : List String) : HGState × List String :=
       match rej with
       | some r => (h, [s!"O rej {r.toString}"])
       | none => let (h, bl) := newBlocks h n s'
-                (h, "O acc" :: bl)
+                (h, "O acc" :: s!"O pl {s'.pendingLoaded}" :: bl)
     | _, _ => (h, ["O bad-op"])
   | ["ins", n, id] =>
     match n.toNat?.bind (h.nodes.get? ·), h.evs.get? id with
